@@ -92,6 +92,20 @@ def size_over(rng: random.Random, small, limit: int):
     return rng.choice([max(1, limit - 1), limit, limit + 1, limit + 10, 2 * limit + 3])
 
 
+# ----------------------------------------------------------------------------- wall-time perturbation (threads)
+# Set by the C03 environments (hv/scenarios/envs.py) for the duration of one run: index of the partition / worker whose
+# handlers are slowed in *wall* time by a real sleep; None = nobody.  Simulated time is not touched, so a correct model
+# gives the same run whatever the value.
+WALL_SLOW = None
+_real_sleep = __import__("time").sleep
+
+
+def wall_slow(index: int, n: int, seconds: float = 0.0015) -> None:
+    """called by harness entities that live in partition / worker `index` of `n`"""
+    if WALL_SLOW is not None and WALL_SLOW % n == index:
+        _real_sleep(seconds)
+
+
 def make_recorder(name: str = "rec"):
     """A sink entity that records (time ns, event type) of everything it receives."""
     from happysimulator.core.entity import Entity
